@@ -130,6 +130,10 @@ def corruption(rep, n, k):
                 rep.bounded['distinct'].add(hash(text))
                 continue
             kinds['accepted'] += 1
+            if kind == 'misspell-ctor':
+                rep.violation('corrupt:misspelled-constructor-accepted', 'a constructor whose name differs from its class is accepted: %r' % text[:200],
+                              dict(kind='corruption', input=text, corruption=kind))
+                continue
             # accepted: the tree must account for every token: re-rendering it gives the same token stream
             try:
                 again = _chars(unparse(_as_generated(abs_module(tree))))
